@@ -176,6 +176,9 @@ let all_solutions (store : z list list) (props : prop list) : int list list =
     end else List.iter (fun x -> cur.(i) <- x; go (i + 1)) doms.(i) in
   go 0; List.rev !out
 
+(* group modules may register further known-class predicates: specs (word lists) -> Some "class" *)
+let known_hook : (string list list -> string option) ref = ref (fun _ -> None)
+
 let known_class (line : string) : string =
   let specs = List.map words (String.split_on_char ';' line) in
   let has w = List.exists (fun p -> match p with k :: _ -> k = w | [] -> false) specs in
@@ -187,7 +190,7 @@ let known_class (line : string) : string =
       | _ -> false) specs in
   if has "neq" then "BAD:neq_noop "
   else if zero_lin then "BAD:lin_zero_coeffs "
-  else ""
+  else match !known_hook specs with Some c -> "BAD:" ^ c ^ " " | None -> ""
 
 let fmt_isols (l : int list list) = if l = [] then "-" else String.concat " " (List.map (fun s -> String.concat "," (List.map string_of_int s)) l)
 
